@@ -5,6 +5,7 @@ go 1.23
 toolchain go1.23.5
 
 require (
+	github.com/coredns/coredns v1.10.0
 	github.com/dgryski/go-spooky v0.0.0-20170606183049-ed3d087f40e2
 	github.com/facebookincubator/dns/dnsrocks v0.0.0
 	github.com/golang/glog v1.0.0
@@ -18,7 +19,6 @@ require (
 	github.com/beorn7/perks v1.0.1 // indirect
 	github.com/cespare/xxhash/v2 v2.1.2 // indirect
 	github.com/coredns/caddy v1.1.1 // indirect
-	github.com/coredns/coredns v1.10.0 // indirect
 	github.com/flynn/go-shlex v0.0.0-20150515145356-3f9db97f8568 // indirect
 	github.com/fsnotify/fsnotify v1.5.1 // indirect
 	github.com/golang/mock v1.6.0 // indirect
